@@ -292,7 +292,14 @@ def run_history(group, hist):
                 if i == len(hist) - 1:
                     viol.append(('C19|REST send/update refused a well-formed request|%s' % name.split('-')[1], {'status': st, 'json': js}))
         else:
-            reestablish(w, payload)
+            try:
+                reestablish(w, payload)
+            except (W.ReplayDivergence, explore.HarnessError) as e:
+                # the session did not end / did not come back the way this kind of drop must go: the agent is not where the
+                # operations so far must have brought it (on a correct tree this cannot happen)
+                viol.append(('C19|session drop (%s) did not go its way after %s' % (payload, '-'.join((hist[i - 1] if i else 'start').split('-')[:2])),
+                             {'error': str(e)[:200], 'history': list(hist[:i + 1])}))
+                return viol, (model.key(), 'diverged'), list(w.exceptions)
             obs = []
         model.apply(eff)
         if i != len(hist) - 1:
